@@ -82,4 +82,24 @@ def monSsSwap (amp : Nat) (decimals before : List Nat) (offerIdx askIdx offer gr
   if gross * scale ≤ exact + tolUnits * scale || (db - da) * 1000000000000 ≤ db then some "C03-ss-rounding"
   else some "C03-ss-invariant"
 
+/-- C02 (stableswap): pool value per LP token, exact D / supply, never decreases through a deposit
+    or a withdrawal beyond the stated granularity (D known to within two units); on the first
+    deposit the supply equals D to within two units. -/
+def monSsLp (amp : Nat) (decimals before after : List Nat) (supplyBefore supplyAfter : Nat) : Verdict :=
+  let ann := amp * before.length
+  let nb := normBalances decimals before
+  let na := normBalances decimals after
+  if na.any (· == 0) then none else
+  let da := Spec.dFloorScaled ann na SS_K
+  if supplyBefore == 0 then
+    -- accuracy of the D used for the first mint: only inside C19's supported range (skew ≤ 1000:1)
+    let mx := (listMax na).getD 0
+    let mn := (listMin na).getD 0
+    if !(mx ≤ 1000 * mn && 1 ≤ amp && amp ≤ 1000000) then none else
+    firstFail [(supplyAfter * SS_K ≤ da + 2 * SS_K && da ≤ supplyAfter * SS_K + 3 * SS_K, "C02-ss-first-mint")]
+  else if nb.any (· == 0) then none else
+  let db := Spec.dFloorScaled ann nb SS_K
+  -- D1/S1 ≥ D0/S0 up to two units of D on either side
+  firstFail [(db * supplyAfter ≤ (da + 2 * SS_K) * supplyBefore + 2 * SS_K * supplyAfter, "C02-ss-dilution")]
+
 end MantraDex
